@@ -4,7 +4,7 @@ One Interp object executes ONE path.  Every branch on a symbolic condition asks 
 are feasible under the path condition; if so the alternative is queued as a *decision prefix* and
 re-executed later from the entry point (no state cloning; trivially parallel, see explore.py).
 """
-import re, time
+import os, sys, re, time
 import z3
 from .values import *
 from . import mirparse
@@ -306,6 +306,9 @@ class Interp:
         else:
             r = s.solver.check(extra)
         s.solver_time += time.time() - t
+        if time.time() - t > 2.0 and os.environ.get('VERIF_SLOWQ'):
+            import traceback as _tb
+            sys.stderr.write('SLOWQ %.1fs extra=%s last=%s\n  at %s\n' % (time.time() - t, str(extra)[:200], str(s.pc[-1])[:200] if s.pc else '', ' <- '.join('%s:%d' % (f.name, f.lineno) for f in _tb.extract_stack()[-6:-1])))
         if r == z3.unknown:
             raise Unsupported('solver returned unknown: ' + s.solver.reason_unknown())
         if s.paranoid:
